@@ -333,6 +333,9 @@ def Iter.rand (it : Iter) (len : Nat) : Nat Ã— Iter :=
 
 def trimS (s : String) : String := String.ofList (trimSpace s.toList)
 
+/-- `strings.ToLower` on ASCII text, character by character (reduces in the kernel, unlike `String.toLower`) -/
+def lowerS (s : String) : String := String.ofList (s.toList.map Char.toLower)
+
 /-- `calcIndex`: a non-numeric index other than next/rand/last is an error, then an empty segment is an error -/
 def calcIndex (indexStr : String) (seg : String) (len : Nat) (id : Nat) (it : Iter) : Outcome (Nat Ã— Iter) :=
   let kw := indexStr == "last" || indexStr == "rand" || indexStr == "next"
@@ -374,7 +377,7 @@ def walk (id : Nat) : List String â†’ List (String Ã— Val) â†’ String â†’ Iter â
       let openIdx := indexOfC '[' segL
       match goSlice segL (openIdx + 1) ((segL.length : Int) - 1), goSlice segL 0 openIdx with
       | some inner, some nameL =>
-        let indexStr := (trimS (String.ofList inner)).toLower
+        let indexStr := lowerS (trimS (String.ofList inner))
         let name := String.ofList nameL
         match getKey name cur with
         | none => .err "segment-not-found"
